@@ -23,6 +23,9 @@ def run_shared(ctx, entry, coq_needed, rule, assumptions, trusted):
         try:
             mod = importlib.import_module("fam." + fam)
             fn = getattr(mod, entry)
+        except ModuleNotFoundError as ex:
+            ctx.note("family %s is not part of this revision (%s): its share of %s is not covered" % (fam, ex, ctx.prop))
+            continue
         except Exception as ex:
             ctx.broken.append("%s: family %s has no %s entry point (%s)" % (ctx.prop, fam, entry, ex))
             continue
